@@ -516,7 +516,10 @@ class Interp:
         elif isinstance(target, ast.Subscript):
             obj = self.ev(target.value, env)
             key = self.ev_slice(target.slice, env)
-            if isinstance(obj, (dict, list)):
+            if isinstance(obj, dict) and _has_sym(key):
+                k = self.dict_find(obj, key)
+                obj[k if k is not None else SymKey(key)] = val
+            elif isinstance(obj, (dict, list)):
                 obj[key] = val
             elif isinstance(obj, V):
                 new = self.theories["__setitem__"](self, obj, key, val)
@@ -801,6 +804,14 @@ class Interp:
         interp = self
 
         def call(*args, **kwargs):
+            if isinstance(obj, dict) and name in ("setdefault", "get") and args and _has_sym(args[0]):
+                k = interp.dict_find(obj, args[0])
+                if k is not None:
+                    return obj[k]
+                dflt = args[1] if len(args) > 1 else None
+                if name == "setdefault":
+                    obj[SymKey(args[0])] = dflt
+                return dflt
             if any(isinstance(a, V) for a in args):
                 h = interp.theories.get("__pymethod__")
                 if h:
@@ -843,7 +854,24 @@ class Interp:
             return tuple(self.ev_slice(x, env) for x in sl.elts)
         return self.ev(sl, env)
 
+    def dict_find(self, d, key):
+        """the stored key of dict `d` equal to the (symbolic) `key`, deciding semantic equality by branching"""
+        sk = SymKey(key)
+        if sk in d:
+            return sk
+        for k2 in list(d.keys()):
+            if isinstance(k2, SymKey):
+                c = _key_eq_term(key, k2.key)
+                if c is not None and self.ctx.branch(V(c), "dict-key-eq"):
+                    return k2
+        return None
+
     def getitem(self, obj, key, node=None):
+        if isinstance(obj, dict) and _has_sym(key):
+            k = self.dict_find(obj, key)
+            if k is None:
+                raise SymRaise(ExcVal("KeyError", (repr(key),), ("LookupError",)))
+            return obj[k]
         if hasattr(obj, "pyvc_getitem"):
             return obj.pyvc_getitem(self, key)
         if isinstance(obj, V):
@@ -870,6 +898,7 @@ class Interp:
                 return SuperProxy(selfv, cref.clsnode if isinstance(cref, ClassRef) else f.cls)
             return SuperProxy(selfv, f.cls)
         fn = self.ev(e.func, env)
+        self.cur_env = env  # (DataFrame.query resolves @names in the caller's scope)
         args = []
         for a in e.args:
             if isinstance(a, ast.Starred):
@@ -882,6 +911,7 @@ class Interp:
                 kwargs.update(self.ev(k.value, env))
             else:
                 kwargs[k.arg] = self.ev(k.value, env)
+        self.cur_env = env
         return self.call(fn, args, kwargs, e)
 
     def call(self, fn, args, kwargs, node=None):
@@ -960,6 +990,61 @@ class Interp:
         c = z3.Const(fresh_name("havoc"), sort)
         self.ctx.notes["havoc"].append(why)
         return V(c, axes)
+
+
+class SymKey:
+    """a dictionary key that contains symbolic values: hashed/compared structurally (z3 term identity)"""
+
+    def __init__(self, key):
+        self.key = key
+        self.sig = self._sig(key)
+
+    @staticmethod
+    def _sig(k):
+        if isinstance(k, tuple):
+            return tuple(SymKey._sig(x) for x in k)
+        if isinstance(k, V):
+            return ("z3", z3.simplify(k.t).get_id())
+        if isinstance(getattr(k, "v", None), V):
+            return ("z3", z3.simplify(k.v.t).get_id())
+        return ("py", k)
+
+    def __hash__(self):
+        return hash(self.sig)
+
+    def __eq__(self, o):
+        return isinstance(o, SymKey) and o.sig == self.sig
+
+    def __repr__(self):
+        return f"SymKey{self.key!r}"
+
+
+def _has_sym(k):
+    if isinstance(k, tuple):
+        return any(_has_sym(x) for x in k)
+    return isinstance(k, V) or isinstance(getattr(k, "v", None), V)
+
+
+def _key_eq_term(a, b):
+    """z3 condition 'the two keys are equal' (None if they can never be equal)"""
+    if isinstance(a, tuple) or isinstance(b, tuple):
+        if not (isinstance(a, tuple) and isinstance(b, tuple) and len(a) == len(b)):
+            return None
+        conds = []
+        for x, y in zip(a, b):
+            c = _key_eq_term(x, y)
+            if c is None:
+                return None
+            conds.append(c)
+        return z3.And(*conds) if conds else z3.BoolVal(True)
+    ax = a.v if isinstance(getattr(a, "v", None), V) else a
+    bx = b.v if isinstance(getattr(b, "v", None), V) else b
+    if isinstance(ax, V) or isinstance(bx, V):
+        r = (ax == bx) if isinstance(ax, V) else (bx == ax)
+        if r is False or r is NotImplemented:
+            return None
+        return r.t if isinstance(r, V) else z3.BoolVal(bool(r))
+    return z3.BoolVal(True) if ax == bx else None
 
 
 class SuperProxy:
